@@ -10,12 +10,6 @@ use vcore::geo_gen::{point, Pt, LAT_STEP};
 pub const GUARD_DEG: f64 = 1e-7;
 pub const TOL_M: f64 = 10.0;
 
-#[derive(Default)]
-pub struct Stats {
-    pub some: u64,
-    pub none_nl: u64,
-    pub guard: u64,
-}
 
 /// Evaluate one true point: 4 pairs. Returns (number of pairs that gave Some, guard-band flag)
 pub fn check_point(ctx: &Ctx, lat: f64, lon: f64) -> Check {
